@@ -191,6 +191,9 @@ func (scopes *scopes) DeclareLabel(label *ast.Label) {
 	name := label.Ident.Name
 
 	lbl, used := current.fn.labels[name]
+	if lbl.node != nil {
+		panic(checkError(scopes.path, label, "label %s already declared", name))
+	}
 	lbl.block = current.block
 	lbl.node = label
 	current.fn.labels[name] = lbl
